@@ -176,6 +176,8 @@ def data_of(d):
         x = rs.standard_t(3, size=n)
     elif kind == 'ints':
         x = rs.randint(0, d.get('k', 4), size=n).astype(float)
+    elif kind == 'long-uniform':      # a very long column (size extreme: no chunked / subsampled statistic may change the choice)
+        x = rs.uniform(d.get('lo', 2.0), d.get('hi', 5.0), n)
     elif kind == 'rounded':          # heavy ties: a continuous law rounded to a grid (counts, prices, rounded measurements)
         x = np.round(rs.gamma(d.get('a', 2.0), d.get('scale', 2.0), size=n) if d.get('law', 'gamma') == 'gamma'
                      else rs.normal(d.get('loc', 5.0), d.get('scale', 2.0), n), d.get('decimals', 0))
@@ -871,7 +873,15 @@ def oracle_best_ks(spec):
         return bad
     if err is not None:
         return [f'candidates with KS {stats} can be fitted, but Univariate.fit raised {type(err).__name__}: {err}']
-    sel = [s for c, s in zip(spec['candidates'], stats) if expected_class(c) is type(u._instance)]
+    def is_selected(c):
+        # the candidate the selected instance was built from: same class and, for a configured prototype, the same options
+        if expected_class(c) is not type(u._instance):
+            return False
+        if c[0] == 'proto':
+            attr = {'minimum': 'min', 'maximum': 'max'}
+            return all(getattr(u._instance, attr.get(k, k), None) == v for k, v in c[2].items())
+        return True
+    sel = [s for c, s in zip(spec['candidates'], stats) if is_selected(c)]
     if not sel or all(s is None for s in sel):
         return [f'selected {type(u._instance).__name__}, which is not a candidate that can be fitted (KS {stats})']
     if min(s for s in sel if s is not None) > min(fitted):
@@ -1330,6 +1340,15 @@ def witness(ctx, rng, quick):
         datas.append({'kind': 'rounded', 'seed': sd, 'n': n_, 'law': law, 'decimals': dec})
     sets.append([['cls', n] for n in REAL])
     datas.append({'kind': 'ints', 'seed': 8, 'n': 50, 'k': 6})
+    # 100 000 rows, two cheap candidates in both orders
+    for order in (['UniformUnivariate', 'GaussianUnivariate'], ['GaussianUnivariate', 'UniformUnivariate']):
+        sets.append([['cls', n] for n in order])
+        datas.append({'kind': 'long-uniform', 'seed': 9, 'n': 100000})
+    # the same family listed twice with different options: every listed candidate competes
+    sets.append([['proto', 'GaussianKDE', {'bw_method': 3.0}], ['proto', 'GaussianKDE', {'bw_method': 0.1}]])
+    datas.append({'kind': 'bimodal', 'seed': 10, 'n': 120})
+    sets.append([['proto', 'TruncatedGaussian', {'minimum': -50.0, 'maximum': 50.0}], ['proto', 'TruncatedGaussian', {'minimum': -6.0, 'maximum': 6.0}]])
+    datas.append({'kind': 'bimodal', 'seed': 11, 'n': 150})
     sets.append([['cls', 'BetaUnivariate'], ['stub', {'id': 'w', 'fit': 'ValueError'}]])
     datas.append({'values': [0.5, None, 1.0, 0.25]})
     for c, d in zip(sets, datas):
